@@ -379,7 +379,7 @@ def gen_cfg(rng, spec, cls):
         mode = rng.choice(["dot", "dot", "dotarc", "rel"])
     elif cls == "drive":
         mode = rng.choice(["dot", "dot", "arc", "rel"])
-    elif cls == "cwd":
+    elif cls == "cwd":          # the current directory is inside the tree / is the root with an arcname
         mode = rng.choice(["dotarc", "cwdsub", "cwdsub"])
     else:
         mode = rng.choice(["dot", "dot", "rel", "rel", "abs", "arc", "arc", "arc2"])
@@ -394,6 +394,8 @@ def gen_cfg(rng, spec, cls):
             cfg["entry"] = "shutil"
         elif r < 0.55 and mode in ("rel", "abs"):
             cfg["entry"] = "cli"
+    if cfg["entry"] == "api" and rng.random() < 0.08:
+        cfg["xnone"] = True       # extractall() without a path, in the destination as current directory
     if mode == "cwdsub":
         dirs = [p for p, s in all_nodes(spec) if s["k"] == "d" and len(p) >= 1]
         cfg["cwd"] = list(rng.choice(dirs)) if dirs else []
@@ -457,7 +459,6 @@ def run_impl(spec, cfg, base):
     res["ctx"] = [1 if (mode in ("abs", "arc", "cwdsub")) else 0,
                   [nm(c) for c in path.split("/") if c and c != "."],
                   [[nm(c) for c in arcname.split("/")]] if arcname is not None else [],
-                  [[]] if mode in ("dot", "dotarc") else ([[nm(c) for c in cfg["cwd"]]] if mode == "cwdsub" else []),
                   1 if cfg["deref"] else 0]
     os.chdir(cwd)
     try:
@@ -519,20 +520,7 @@ def classify_diff(p, exp, got, expmap, gotmap, cfg, spec):
     if exp is not None and got is not None and exp[0] == "link" and got[0] == "link":
         if pathlib_norm(exp[2]) == got[2]:
             return "link-text-normalised"
-        # rewritten by _find_link_target: the normalised text names a member, read from the origin base
-        ln = pathlib_norm(exp[2])
-        parent = p.rsplit("/", 1)[0] if "/" in p else ""
-        base = {"dot": "", "dotarc": "", "rel": "src", "arc2": "src"}.get(mode)
-        if base is not None:
-            o_link_dir = "/".join(x for x in [base, parent] if x)
-            if os.path.relpath(ln, o_link_dir or ".") == got[2]:
-                return "link-target-rewritten"
         return "unclassified"
-    if mode in ("dotarc", "cwdsub"):
-        cw = "/".join(cfg.get("cwd", []))
-        if p == cw and exp is not None and exp[0] == "dir":
-            if got is None or (got[0] == "dir" and (got[1] != exp[1] or got[3] != exp[3])):
-                return "cwd-directory-entry-skipped"
     if mode == "dot":
         # first components that _sanitize_archive_arcname mangles, and the names they turn into
         def drive(t):
@@ -646,8 +634,6 @@ def run_case(arg):
             cls = "unclassified"
             if res["exc"][0] == "AbsolutePathError" and cfg["mode"] in ("dot",):
                 cls = "drive-letter-name"
-            if res["exc"][0] == "AttributeError" and cfg.get("xnone") and "is_absolute" in res["exc"][1]:
-                cls = "extractall-none-symlink"
             r["diffs"].append(("", cls, "exception at stage %s: %s: %s" % (res["stage"], res["exc"][0], res["exc"][1])))
         # ---- the model
         if use_model:
@@ -955,7 +941,7 @@ def fixed_cases():
     out.append(("only-links", d([["l", ln("m")], ["m", ln("l2")], ["l2", ln(".")]]), {"mode": "dot", "deref": False, "pw": None, "entry": "api", "relout": False}))
     out.append(("special-bits", d([["su", f(1, 0o4755)], ["st", d([], 0o1777)], ["sg", d([["x", f(2, 0o2644)]], 0o2750)]]),
                 {"mode": "arc", "deref": False, "pw": None, "entry": "api", "relout": False}))
-    # known shapes
+    # shapes of repaired and of known defects
     cap = d([["a", f(5)], ["d", d([["a", f(7)], ["l", ln("a")]])]])
     out.append(("capture", cap, {"mode": "dot", "deref": False, "pw": None, "entry": "api", "relout": False}))
     out.append(("capture", cap, {"mode": "rel", "deref": False, "pw": None, "entry": "api", "relout": False}))
@@ -971,11 +957,8 @@ def fixed_cases():
 
 
 WHAT = {
-    "link-target-rewritten": "a relative link whose text equals the path (as given to writeall) of an already archived member is stored as a path to that member",
     "link-text-normalised": "link text is stored after pathlib normalisation ('./x', 'x//y', 'x/' lose characters)",
-    "cwd-directory-entry-skipped": "the directory that is the current working directory gets no entry (samefile('.')), also below the root and with arcname given",
     "drive-letter-name": "a first path component starting with letter+colon is mangled or rejected on POSIX",
-    "extractall-none-symlink": "extractall() without path raises AttributeError when the archive holds a link",
 }
 
 
